@@ -747,6 +747,14 @@ mod inner {
         }
         let output_osc = str_to_oscode(output_key)
             .ok_or_else(|| anyhow_expr!(output_expr, "unknown key name"))?;
+        // nop0-nop9 are never sent to the OS; zippychord types its outputs directly,
+        // behind the filter that drops them everywhere else.
+        if (0x2a4..=0x2ad).contains(&u16::from(output_osc)) {
+            bail_expr!(
+                output_expr,
+                "nop0-nop9 cannot be typed and are not valid zippy outputs"
+            );
+        }
         let output = match output_mods.len() {
             0 => match is_noerase {
                 false => ZchOutput::Lowercase(output_osc),
